@@ -303,7 +303,10 @@ package stats
 
 // the immediately invoked closure of handleStats takes confMu itself; it runs with no lock held
 //@ func (s *StatsCtx) handleStats$1()
+//@   property C09
+//@   callsites-only
 //@   requires nolocks()
+//@   callsite (*github.com/AdguardTeam/AdGuardHome/internal/stats.StatsCtx).getData(l) requires window-is-the-configured-retention: l == uint32(s.limit.Hours())
 //@   modifies *
 
 // ---- C08: a name on the statistics ignore list, or an ignored client, is never counted ----
